@@ -432,17 +432,36 @@ cdef class InterCoefficient(Coefficient):
         elif order >= 2:
             # Use scipy to compute the spline and transform it to polynomes
             # as used in scipy's PPoly which is easier for us to use.
-            spline = make_interp_spline(tlist, coeff_arr, k=order,
-                                        bc_type=boundary_conditions)
-            # Scipy can move knots, we add them to tlist
-            tlist = np.sort(np.unique(np.concatenate([spline.t, tlist])))
+            if boundary_conditions == "periodic":
+                # Scipy's periodic splines keep the real part of the data
+                # only: interpolate the two parts separately.
+                parts = [coeff_arr.real, coeff_arr.imag]
+            else:
+                parts = [coeff_arr]
+            splines = [
+                make_interp_spline(tlist, part, k=order,
+                                   bc_type=boundary_conditions)
+                for part in parts
+            ]
+            spline = splines[0]
+            # Scipy can move knots, we add them to tlist. Periodic splines
+            # also have knots outside of the samples' range, where the
+            # coefficient is constant. ``extrapolate=False`` keeps scipy from
+            # wrapping the times, which can move them across a knot.
+            knots = spline.t[
+                (spline.t >= tlist[0]) & (spline.t <= tlist[-1])
+            ]
+            tlist = np.sort(np.unique(np.concatenate([knots, tlist])))
             a = np.arange(spline.k+1)
             a[0] = 1
             fact = np.cumprod(a)
             coeff_arr = np.concatenate([
-                spline(tlist, i) / fact[i]
+                sum(
+                    factor * each(tlist, i, extrapolate=False)
+                    for factor, each in zip((1, 1j), splines)
+                ) / fact[i]
                 for i in range(spline.k, -1, -1)
-            ]).reshape((spline.k+1, -1))
+            ]).reshape((spline.k+1, -1)).astype(np.complex128, copy=False)
 
         self._prepare(tlist, coeff_arr)
 
